@@ -93,3 +93,188 @@ class _:
             frame=lambda v, e: {"LA.Int": [v.idx], "LHI.Int": [v.idx]},
         )
     }
+
+
+@contract(f"{M}.scaffold_by_name", properties=("C12",))
+class _:
+    params = {"self": IA, "name": STR}
+    result = TRef("Scaffold")
+    raises = {"ValueError": lambda o: z3.Not(o.self._scaffold_dict.has(o.name))}
+
+    @staticmethod
+    def ensures(o, n, res):
+        d = o.self._scaffold_dict
+        return z3.And(d.has(o.name), res.same(d.get(o.name)))
+
+
+# --- find_overlaps -----------------------------------------------------------------------
+
+
+def row_start(idx, k):
+    """scaffold coordinate of the first base of row k, as the code derives it from the index"""
+    return z3.If(k == 0, 1, 1 + idx[k - 1])
+
+
+def span_lo(rows, k):
+    return 1 + rows.cum(k)
+
+
+def span_hi(rows, k):
+    return rows.cum(k + 1)
+
+
+def hit(rows, k, a, b):
+    """row k's scaffold-coordinate span intersects the query [a, b]"""
+    return z3.And(span_hi(rows, k) >= a, span_lo(rows, k) <= b)
+
+
+def _fo_common(v):
+    sc = v.scffld
+    rows, idx = sc.rows, v.idx
+    n = rows.len
+    return sc, rows, idx, n
+
+
+def _idx_facts(rows, idx):
+    n = rows.len
+    return [
+        idx.len == n,
+        forall(lambda k: z3.Implies(z3.And(0 <= k, k < n), idx[k] == rows.cum(k + 1))),
+        forall2(lambda a, b: z3.Implies(z3.And(0 <= a, a < b, b < n), idx[a] < idx[b])),
+        z3.Implies(n > 0, idx[0] >= 1),
+    ]
+
+
+@contract(f"{M}.find_overlaps", properties=("C12", "C18"))
+class _:
+    params = {"self": IA, "bait": FRAG}
+    result = TOpt(TRef("OverlapResult"))
+
+    @staticmethod
+    def requires(o):
+        # "every query interval [a,b] with 1 <= a <= b" (a <= b is the Fragment invariant)
+        return [
+            ("query", o.bait.start >= 1),
+            ("two-dicts", ia_shape(o.self)),
+            ("indexed", entry_wf(o.self, o.bait.name)),
+        ]
+
+    @staticmethod
+    def modifies(o):
+        return [("alloc",), ("fresh-lists", ROW), ("map", "H.Scaffold.name"), ("map", "H.Scaffold.rows"), ("map", "H.Scaffold.tag"),
+                ("map", "H.Scaffold.haplotype"), ("map", "H.Scaffold.rank"), ("map", "H.Scaffold.original_name"),
+                ("map", "H.Scaffold.original_tags"), ("map", "H.OverlapResult.bait"), ("map", "H.OverlapResult.start"),
+                ("map", "H.OverlapResult.end"), ("map", "H.$class"),
+                ("map", "H.OverlapResult.g_src"), ("map", "H.OverlapResult.g_lo"), ("map", "H.OverlapResult.g_hi"),
+                ("map", "H.OverlapResult.g_ts"), ("map", "H.OverlapResult.g_te")]
+
+    # "never fails on such queries": the only error is an unknown / empty / unindexed scaffold
+    raises = {
+        "ValueError": lambda o: z3.Or(
+            z3.Not(o.self._scaffold_dict.has(o.bait.name)),
+            o.self._scaffold_dict.get(o.bait.name).rows.len == 0,
+        )
+    }
+
+    @staticmethod
+    def ghost_exit(o, n, res, st):
+        """the window of source rows the result was cut from: read off the locals of the real code"""
+        from pyvc.spec import field_map
+        from pyvc.values import TOpt as _TOpt
+
+        if res.ty == NONE or not n.has("i_ovr") or not n.has("j_ovr"):
+            return
+        S = res.ty.sort() if isinstance(res.ty, _TOpt) else None
+        ref = S.val(res.z) if S is not None else res.z
+        sc = n.raw("scffld")
+        _, mrows, _ = field_map(st, "Scaffold", "rows")
+        for attr, val in (("g_src", mrows[sc.z]), ("g_lo", n.i_ovr), ("g_hi", n.j_ovr), ("g_ts", z3.IntVal(0)), ("g_te", z3.IntVal(0))):
+            name, m, ty = field_map(st, "OverlapResult", attr)
+            st.heap[name] = z3.Store(m, ref, val)
+
+    @staticmethod
+    def ensures(o, n, res):
+        sc = o.self._scaffold_dict.get(o.bait.name)
+        rows = sc.rows
+        idx = o.self._scaffold_index.get(o.bait.name)
+        nrows = rows.len
+        a, b = o.bait.start, o.bait.end
+        # spans read through the stored index: by the class invariant (precondition `indexed`)
+        # idx[k] == cum(k+1), so [row_start(idx,k), idx[k]] *is* the scaffold-coordinate span of row k
+        # (lemma c12_index_is_span proves the two readings equal)
+        hit_k = lambda k: z3.And(idx[k] >= a, row_start(idx, k) <= b)
+        contig_hit = lambda k: z3.And(0 <= k, k < nrows, hit_k(k), rows[k].is_frag)
+        none_hit = forall(lambda k: z3.Not(contig_hit(k)))
+        r = res.val
+        lo, hi = r.g_lo, r.g_hi
+        out = r.rows
+        return [
+            # "It returns nothing when no contig row intersects the query"
+            ("nothing-iff-no-contig-hit", res.is_none == none_hit),
+            # "returns exactly the rows whose span intersects the query, minus leading and trailing gap rows"
+            ("window", z3.Implies(z3.Not(res.is_none), z3.And(
+                0 <= lo, lo <= hi, hi < nrows,
+                contig_hit(lo), contig_hit(hi),
+                forall(lambda k: z3.Implies(contig_hit(k), z3.And(lo <= k, k <= hi))),
+                forall(lambda k: z3.Implies(z3.And(lo <= k, k <= hi), hit_k(k))),
+            ))),
+            ("rows", z3.Implies(z3.Not(res.is_none), z3.And(
+                out.len == hi - lo + 1,
+                forall(lambda k: z3.Implies(z3.And(0 <= k, k <= hi - lo), out[k].z == rows[lo + k].z)),
+            ))),
+            # "together with the scaffold coordinates of the first and last returned row"
+            ("coordinates", z3.Implies(z3.Not(res.is_none), z3.And(r.start == row_start(idx, lo), r.end == idx[hi]))),
+            ("bait", z3.Implies(z3.Not(res.is_none), r.bait.z == o.bait.z)),
+            ("ghost-source", z3.Implies(z3.Not(res.is_none), z3.And(r.g_src.same(rows), r.g_ts == 0, r.g_te == 0))),
+            ("fresh", z3.Implies(z3.Not(res.is_none), z3.And(r.z >= o.alloc, out.z >= o.alloc))),
+        ]
+
+    loops = {
+        # binary search
+        0: LoopSpec(
+            kind="while",
+            iter_src="a < z",
+            inv=lambda v, e: (lambda sc, rows, idx, n: [
+                ("bounds", z3.And(0 <= v.a, v.a <= v.z, v.z <= n)),
+                ("left-of-a", forall(lambda k: z3.Implies(z3.And(0 <= k, k < v.a), idx[k] < v.bait_start))),
+                ("right-of-z", forall(lambda k: z3.Implies(z3.And(v.z <= k, k < n), row_start(idx, k) > v.bait_end))),
+            ])(*_fo_common(v)),
+            variant=lambda v: v.z - v.a,
+        ),
+        # extension to the left
+        1: LoopSpec(
+            kind="for",
+            iter_src="range(ovr - 1, -1, -1)",
+            inv=lambda v, e: (lambda sc, rows, idx, n: [
+                ("i_ovr", z3.And(v.i_ovr == v._it1 + 1, -1 <= v._it1, v._it1 < v.ovr)),
+                ("all-hit", forall(lambda k: z3.Implies(z3.And(v.i_ovr <= k, k <= v.ovr), idx[k] >= v.bait_start))),
+            ])(*_fo_common(v)),
+        ),
+        # extension to the right
+        2: LoopSpec(
+            kind="for",
+            iter_src="range(ovr + 1, len(idx))",
+            inv=lambda v, e: (lambda sc, rows, idx, n: [
+                ("j_ovr", z3.And(v.j_ovr == v._it2 - 1, v.ovr < v._it2, v._it2 <= n)),
+                ("all-hit", forall(lambda k: z3.Implies(z3.And(v.ovr <= k, k <= v.j_ovr), row_start(idx, k) <= v.bait_end))),
+            ])(*_fo_common(v)),
+        ),
+        # strip leading gaps
+        3: LoopSpec(
+            kind="while",
+            inv=lambda v, e: (lambda sc, rows, idx, n: [
+                ("range", z3.And(e.i_ovr <= v.i_ovr, v.i_ovr <= v.j_ovr + 1)),
+                ("gaps", forall(lambda k: z3.Implies(z3.And(e.i_ovr <= k, k < v.i_ovr), rows[k].is_gap))),
+            ])(*_fo_common(v)),
+            variant=lambda v: v.j_ovr - v.i_ovr + 1,
+        ),
+        # strip trailing gaps
+        4: LoopSpec(
+            kind="while",
+            inv=lambda v, e: (lambda sc, rows, idx, n: [
+                ("range", z3.And(v.i_ovr - 1 <= v.j_ovr, v.j_ovr <= e.j_ovr)),
+                ("gaps", forall(lambda k: z3.Implies(z3.And(v.j_ovr < k, k <= e.j_ovr), rows[k].is_gap))),
+            ])(*_fo_common(v)),
+            variant=lambda v: v.j_ovr - v.i_ovr + 1,
+        ),
+    }
